@@ -49,12 +49,14 @@ theorem generated_o_case_for_c13 : oPlace = .temp ∧ renameSrcTemp = true := by
 
 
 
+
 -- BEGIN PINS (written by bin/mkpins; do not edit by hand)
 /-- the Go functions this property's model and obligations were written against have exactly the
 pinned skeletons (SHA-256 prefix of the atom list) -/
 theorem pinned_skeletons_c13 :
     pinsOk
-    [("Scipipe.FileIP_Path", "c6a514b4100d9a7c"),
+    [("Scipipe.#decls", "7633eb8a74616d59"),
+     ("Scipipe.FileIP_Path", "c6a514b4100d9a7c"),
      ("Scipipe.FileIP_TempDir", "36eed961c5125267"),
      ("Scipipe.FileIP_TempPath", "7eba22a35232a5cb"),
      ("Scipipe.FileIP_createDirs", "04008d08d8a14234"),
